@@ -141,7 +141,8 @@ class PackedTensor(torch.Tensor):
     @classmethod
     def __torch_dispatch__(cls, op, types, args, kwargs=None):
         # Convert back to tensor before calling any operation except detach
-        if op.overloadpacket is torch.ops.aten.detach:
+        if op.overloadpacket in (torch.ops.aten.detach, torch.ops.aten.clone):
+            # Clone is required by copy.deepcopy: it must return a Tensor of the same class
             t = args[0]
             data = op(t._data)
             return PackedTensor(data, t._bits, t.size(), t.stride())
